@@ -13,6 +13,7 @@ pub mod c12;
 pub mod c13;
 pub mod c15;
 pub mod c16;
+pub mod c17;
 pub mod c18;
 pub mod sanitize;
 pub mod selftest;
@@ -35,6 +36,7 @@ pub fn dispatch(ctx: &Ctx) -> Option<(Spec, Report)> {
         "C13" => c13::run(ctx),
         "C15" => c15::run(ctx),
         "C16" => c16::run(ctx),
+        "C17" => c17::run(ctx),
         "C18" => c18::run(ctx),
         "SELFTEST" => selftest::run(ctx),
         _ => return None,
